@@ -25,7 +25,8 @@ var (
 	fProp     = flag.String("prop", "", "property id")
 	fTier     = flag.String("tier", "quick", "quick|thorough")
 	fSeed     = flag.Int64("seed", 1, "seed")
-	fRoot     = flag.String("root", "/verif", "verif root")
+	fRoot     = flag.String("root", "/verif", "verif root (known_findings.txt)")
+	fOut      = flag.String("out", "", "directory for evidence/, replay/ and .work/ (default: root)")
 	fChild    = flag.Bool("child", false, "child mode")
 	fWorker   = flag.Int("worker", 0, "worker index")
 	fWorkers  = flag.Int("workers", 16, "number of workers")
@@ -35,6 +36,13 @@ var (
 	fList     = flag.Bool("list", false, "list properties")
 	fCase     = flag.Int("case", -1, "run a single case in-process, verbose")
 )
+
+func outDir() string {
+	if *fOut != "" {
+		return *fOut
+	}
+	return *fRoot
+}
 
 func main() {
 	flag.Parse()
@@ -160,7 +168,7 @@ func parent(p *core.Prop) int {
 	if workers < 1 {
 		workers = 1
 	}
-	work := filepath.Join(*fRoot, ".work", fmt.Sprintf("%s-%d", p.ID, os.Getpid()))
+	work := filepath.Join(outDir(), ".work", fmt.Sprintf("%s-%d", p.ID, os.Getpid()))
 	if err := os.MkdirAll(work, 0o755); err != nil {
 		panic(err)
 	}
@@ -181,7 +189,7 @@ func parent(p *core.Prop) int {
 		c := &ch{journal: filepath.Join(work, fmt.Sprintf("journal.%d", w)), stats: filepath.Join(work, fmt.Sprintf("stats.%d", w)),
 			out: filepath.Join(work, fmt.Sprintf("out.%d", w)), done: make(chan struct{})}
 		c.cmd = exec.Command(self, "-child", "-prop", p.ID, "-tier", *fTier, "-seed", fmt.Sprint(*fSeed),
-			"-worker", fmt.Sprint(w), "-workers", fmt.Sprint(workers), "-journal", c.journal, "-statsout", c.stats, "-root", *fRoot)
+			"-worker", fmt.Sprint(w), "-workers", fmt.Sprint(workers), "-journal", c.journal, "-statsout", c.stats, "-root", *fRoot, "-out", outDir())
 		of, err := os.Create(c.out)
 		if err != nil {
 			panic(err)
@@ -189,7 +197,7 @@ func parent(p *core.Prop) int {
 		c.cmd.Stdout, c.cmd.Stderr = of, of
 		c.cmd.Env = append(os.Environ(), "GOTRACEBACK=all")
 		if p.Race {
-			c.cmd.Env = append(c.cmd.Env, "GORACE=halt_on_error=0 log_path="+filepath.Join(work, fmt.Sprintf("race.%d", w)))
+			c.cmd.Env = append(c.cmd.Env, "GORACE=halt_on_error=0 exitcode=0 log_path="+filepath.Join(work, fmt.Sprintf("race.%d", w)))
 		}
 		if err := c.cmd.Start(); err != nil {
 			panic(err)
@@ -394,9 +402,9 @@ func report(p *core.Prop, st *core.Stats, tier string, seed int64, wall float64,
 	code := 0
 	if len(unknown) > 0 {
 		verdict, code = "violated", 1
-		os.MkdirAll(filepath.Join(*fRoot, "replay"), 0o755)
+		os.MkdirAll(filepath.Join(outDir(), "replay"), 0o755)
 		for _, v := range unknown {
-			path := filepath.Join(*fRoot, "replay", fmt.Sprintf("%s-%s-seed%d-case%d-%s.json", p.ID, tier, seed, v.Case, sanitize(v.Sig)))
+			path := filepath.Join(outDir(), "replay", fmt.Sprintf("%s-%s-seed%d-case%d-%s.json", p.ID, tier, seed, v.Case, sanitize(v.Sig)))
 			rb, _ := json.MarshalIndent(map[string]interface{}{"property": p.ID, "tier": tier, "seed": seed, "case": v.Case,
 				"sig": v.Sig, "what": v.What, "detail": v.Detail}, "", " ")
 			os.WriteFile(path, rb, 0o644)
@@ -474,8 +482,8 @@ func writeEv(p *core.Prop, st *core.Stats, tier string, seed int64, wall float64
 		"violations":  nUnknown,
 	}
 	b, _ := json.MarshalIndent(ev, "", " ")
-	os.MkdirAll(filepath.Join(*fRoot, "evidence"), 0o755)
-	if err := os.WriteFile(filepath.Join(*fRoot, "evidence", p.ID+".json"), b, 0o644); err != nil {
+	os.MkdirAll(filepath.Join(outDir(), "evidence"), 0o755)
+	if err := os.WriteFile(filepath.Join(outDir(), "evidence", p.ID+".json"), b, 0o644); err != nil {
 		fmt.Fprintln(os.Stderr, "cannot write evidence:", err)
 	}
 }
